@@ -6,7 +6,7 @@ Local Open Scope list_scope.
 
 (* every query of one process (psutil._pslinux.Process methods and the psutil.Process front ends over them) *)
 Definition backend_scripts : list prog :=
-  [ i_stat_based; i_terminal; i_status_based; i_cmdline; i_file FEnviron; i_file FIo; i_memory_info; i_parse_smaps;
+  [ i_stat_based; i_terminal; i_terminal_warm; i_status_based; i_cmdline; i_file FEnviron; i_file FIo; i_memory_info; i_parse_smaps;
     i_memory_full_info; i_memory_maps; i_threads; i_open_files; i_num_fds;
     i_net_connections 0; i_net_connections 1; i_net_connections 2;
     i_sys FSysPrio; i_sys FSysIoprio; i_sys FSysAffinity; i_rlimit;
@@ -31,7 +31,7 @@ Definition block_scripts : list prog :=
     oneshot_block [f_cpu_times; f_name; f_ppid; f_status]; oneshot_block_c [f_cpu_times; f_name; f_ppid; f_status];
     oneshot_block [f_uids; i_status_based; f_uids]; oneshot_block_c [i_memory_full_info; i_memory_maps; f_memory_info] ].
 (* calls that also query other Process objects *)
-Definition iter_attrs : list prog := [ ppid_of Any FStatE; name_of Any FStatE FCmdlineE; status_of Any FStatE ].
+Definition iter_attrs : list prog := [ ppid_of Any FStatE; name_of Any FStatE FCmdlineE; status_of Any FStatE; terminal_of Any FStatE ].
 Definition tree_scripts : list prog :=
   [ f_parent; f_parents; f_children; f_children_rec; f_iter iter_attrs;
     f_iter [ppid_of Any FStatE; name_of Any FStatE FCmdlineE] ].
@@ -69,6 +69,14 @@ Qed.
 Theorem wait_sound : forall w, base_ok opt_half w ->
   forall s, s_cache s = false -> allowed_wait (fst (run w f_wait s)) (gone w (snd (run w f_wait s))).
 Proof. intros w Hb s Hc. exact (wait_guarded_sound_w w opt_half Hb f_wait (proj1 wait_table) s Hc). Qed.
+
+Theorem terminal_sound : forall w, base_ok opt_half w -> forall p, In p [ i_terminal; i_terminal_warm ] ->
+  forall s, s_cache s = false -> allowed (fst (run w p s)) (gone w (snd (run w p s))).
+Proof.
+  intros w Hb p Hp s Hc. apply linux_methods_sound; auto.
+  apply in_or_app. right. unfold linux_scripts, consulting_scripts, core_scripts, backend_scripts.
+  simpl in Hp. destruct Hp as [<- | [<- | []]]; simpl; auto 10.
+Qed.
 
 (* any HISTORY of calls on one object (each call started from whatever the earlier ones left in the object's fields;
    faults anywhere in the history): every call of it ends as the property allows *)
@@ -114,7 +122,7 @@ Definition y0 : layout :=
      y_tasks := ["4242"; "4243"]; y_pids := ["1"; "77"; "4242"; "5001"; "5002"; "5003"];
      y_kids := [("4242", ["5001"; "5002"]); ("5001", ["5003"]); ("1", ["77"; "4242"])]; y_zombies := ["5002"];
      y_race_fd := "5"; y_race_task := "4243";
-     y_del_fd := "3"; y_maps_del := ["lib.so (deleted)"]; y_devs := ["pts0"; "tty1"] |}.
+     y_del_fd := "3"; y_maps_del := ["lib.so (deleted)"]; y_devs := ["tty1"; "pts/0"]; y_gone_dev := "pts/0" |}.
 
 Ltac ifs := repeat match goal with |- context [if ?c then _ else _] => destruct c end.
 (* all four base kinds, every schedule of vanishing (whole directory or half-removed; other processes) and refusals *)
